@@ -73,7 +73,7 @@ def inject(chunks, pos, fault, rng):
 class Check(DiffCheck):
     id = 'C10'
     coq_dirs = ['Base', 'C10']
-    coq_targets = ['C10/C10_Proofs.vo', 'C10/C10_ProofsLoop.vo', 'C10/C10_ProofsTop.vo', 'C10/C10_ProofsEngine.vo', 'C10/C10_ProofsRearm.vo']
+    coq_targets = ['C10/C10_Proofs.vo', 'C10/C10_ProofsLoop.vo', 'C10/C10_ProofsTop.vo', 'C10/C10_ProofsEngine.vo', 'C10/C10_ProofsRearm.vo', 'C10/C10_ProofsAgree.vo', 'C10/C10_ProofsAgree2.vo', 'C10/C10_ProofsAgree3.vo']
     properties_v = 'C10/C10_Properties.v'
     extract_v = 'C10/C10_Extract.v'
     runner_ml = 'ocaml/C10_run.ml'
@@ -152,7 +152,7 @@ class Check(DiffCheck):
                 sys, wt, tmo = inject(chunks, p, f, rng)
                 cs.append(dcase('sendfile', None, 0, [off, count], sys + ['r1'], wt))
         # random longer scripts
-        nrand = 2500 if quick else 60000
+        nrand = 1500 if quick else 60000
         for _ in range(nrand):
             op = rng.choice(['readv', 'writev', 'readv', 'writev', 'read', 'write', 'recvv', 'sendv', 'recv', 'send', 'sendfile'])
             if op in ('read', 'write', 'recv', 'send'):
